@@ -16,6 +16,16 @@ in-memory transports) whose client manager is a ~15-line subclass of the real `P
 No threads, no tasks left running: `initialize()`'s `start_background_task(self._thread)` is
 dropped.  Everything `_thread` logs through `server.logger` is recorded (`PubSubWorld.log`), which
 is how contained exceptions are observed.
+
+Interleaving INSIDE one call (`arm()` / `disarm()`): every transport write of every host goes through
+`eio.send_packet`, which the world wraps.  An armed `Interference` runs a scripted action once, inside
+the n-th write (of the writes whose payload it matches) of whatever call is in progress on that host —
+what another thread of a threaded server (the pub/sub listener, a second application thread, the thread
+serving another client's request) does between two sends of an emit's fan-out.  The action runs
+re-entrantly on the same OS thread: deterministic, no waits.  On the asyncio twin the write is an
+`await` (a switching point); while the host's loop is running, nested harness calls drive their
+coroutine by hand (`_drive`): nothing in this in-memory world ever suspends, and if something did the
+nested call fails loudly instead of blocking.
 """
 import asyncio
 import pickle
@@ -35,6 +45,72 @@ class Fatal(BaseException):
 
 
 RAISE = ('__listen_raises__',)       # channel entry: the iterator raises here
+
+
+class NestedSuspended(BaseException):
+    """a nested (in-flight) harness call awaited something that is not ready: a harness limitation"""
+
+
+def _drive(coro):
+    """run a coroutine that never suspends to completion, without an event loop turn"""
+    try:
+        y = coro.send(None)
+    except StopIteration as e:
+        return e.value
+    coro.close()
+    raise NestedSuspended(repr(y))
+
+
+class Interference:
+    """fires `action()` once: at the `after`-th (0-based) packet whose first (text) frame satisfies
+    `match` — before its first write ('pre') or after its last one ('post': a packet with binary
+    attachments is several writes, and the action is never placed between them: frames of one packet
+    interleaved with another thread's packet for the same client is a different matter from the
+    one studied here)"""
+
+    def __init__(self, match, after, pos, action):
+        self.match = match
+        self.after = after
+        self.pos = pos
+        self.action = action
+        self.seen = 0
+        self.fired = False
+        self.error = None
+        self.waiting = None          # [sid, attachments still to be written] of the chosen packet
+
+    def before_write(self, sid, pkt):
+        if self.fired or self.waiting is not None:
+            return
+        data = getattr(pkt, 'data', None)
+        if not isinstance(data, str) or not self.match(data):
+            return
+        n = self.seen
+        self.seen += 1
+        if n != self.after:
+            return
+        if self.pos == 'pre':
+            self.fire()
+            return
+        att = 0
+        if data[:1] in ('5', '6') and '-' in data:
+            head = data[1:data.index('-')]
+            att = int(head) if head.isdigit() else 0
+        self.waiting = [sid, att]
+
+    def after_write(self, sid, pkt):
+        if self.fired or self.waiting is None or self.waiting[0] != sid:
+            return
+        if self.waiting[1] == 0:
+            self.fire()
+        else:
+            self.waiting[1] -= 1
+
+    def fire(self):
+        self.fired = True
+        try:
+            self.action()
+        except BaseException as ex:   # noqa  a harness error must not look like the library's
+            self.error = ex
 
 
 class Channel:
@@ -140,6 +216,7 @@ class PubSubWorld:
         self.ids = list(host_ids or ['h%d' % i for i in range(n_hosts)])
         self.hosts = []
         self.mgr = []
+        self.armed = []               # per host: the Interference waiting for its write, or None
         for hid in self.ids:
             m = cls(self.chan, hid)
             w = W.ServerWorld(family, manager=m, namespaces=list(namespaces), logger=_Log(self.log, hid))
@@ -150,10 +227,64 @@ class PubSubWorld:
                 w.sio.on('disconnect', self._disc_handler(hid), namespace=ns)
             self.hosts.append(w)
             self.mgr.append(m)
+            self._wrap_writes(len(self.hosts) - 1, w)
+            if self.is_async:
+                w.run = self._nesting_run(w)
         self.wo = cls(self.chan, wo_id, write_only=True)
         self.wo_loop = asyncio.new_event_loop() if self.is_async else None
         self.where = {}               # tid -> host index
         self.disc_fault = None        # callable(host, sid, ns) -> exception to raise or None
+
+    # ---- interleaving inside a call
+    def _wrap_writes(self, i, w):
+        orig = w.eio.send_packet       # `eio.send()` goes through it too
+        self.armed.append(None)
+        if self.is_async:
+            async def send_packet(sid, pkt):
+                arm = self.armed[i]
+                if arm is not None:
+                    arm.before_write(sid, pkt)
+                r = await orig(sid, pkt)
+                if arm is not None:
+                    arm.after_write(sid, pkt)
+                return r
+        else:
+            def send_packet(sid, pkt):
+                arm = self.armed[i]
+                if arm is not None:
+                    arm.before_write(sid, pkt)
+                r = orig(sid, pkt)
+                if arm is not None:
+                    arm.after_write(sid, pkt)
+                return r
+        w.eio.send_packet = send_packet
+
+    def _await(self, w, r):
+        if asyncio.iscoroutine(r):
+            if w.loop.is_running():
+                return _drive(r)
+            return w.loop.run_until_complete(r)
+        return r
+
+    def _nesting_run(self, w):
+        def run(fn, *a, **k):
+            try:
+                return ('ok', self._await(w, fn(*a, **k)))
+            except Exception as ex:   # noqa
+                return ('exc', type(ex).__name__)
+        return run
+
+    def arm(self, hid, match, after, pos, action):
+        """while a call is in progress on host `hid`: run `action()` inside its `after`-th matching write"""
+        self.armed[self.index(hid)] = Interference(match, after, pos, action)
+
+    def disarm(self, hid):
+        """-> did it fire?  (an exception of the action itself is re-raised here)"""
+        i = self.index(hid)
+        arm, self.armed[i] = self.armed[i], None
+        if arm is not None and arm.error is not None:
+            raise arm.error
+        return bool(arm is not None and arm.fired)
 
     def _disc_handler(self, hid):
         def on_disconnect(sid, reason=None):
@@ -219,9 +350,7 @@ class PubSubWorld:
         m.limit = min(len(self.chan.msgs), m.cursor + k)
         w = self.hosts[i]
         try:
-            r = m._thread()
-            if asyncio.iscoroutine(r):
-                w.loop.run_until_complete(r)
+            self._await(w, m._thread())
             return ('ok', None)
         except BaseException as ex:   # noqa  (a scripted Fatal — or SystemExit / KeyboardInterrupt /
             # GeneratorExit / CancelledError escaping a broken listener — ends `_thread`: a verdict,
